@@ -223,6 +223,9 @@ impl Accept {
                         self.paused = false;
 
                         sockets.iter_mut().for_each(|info| {
+                            // The socket is registered from here on, so it must not keep a back-off
+                            // deadline: `deregister_all` skips sockets that carry one.
+                            info.timeout = None;
                             self.register_logged(info);
                         });
 
